@@ -45,6 +45,27 @@ CHECKS = {
         "Trusted: the harness scanner's reading of the lexical grammar.",
         "DESIGN.md section 5, C11",
     ),
+    "C12": (
+        "totality + meaning monitor over the real formatter: catch_unwind, CPU/memory budget per case, re-parse of the output, equality of the desugared term, check/run equivalence on runnable programs, `zydeco fmt` out of process on parseable and unparseable files",
+        "Every (source, option tuple) of the workload (repository sources, trivia-mutated sources, grammar-generated terms with nested format directives, generated programs; widths from 1 up, "
+        "4 indents, 3 layout policies, 2 parenthesis policies, as API options or as a wrapping directive) is formatted in process; a panic, a death of the formatting shard, output that "
+        "does not parse, a different desugared term or a different check/run behaviour is a violation. Exploration. Sources at delimiter nesting >= 11 are only sampled out of process (known finding).",
+        "Trusted: the repository's one-line rendering of desugared terms as a faithful structure fingerprint; the CPU budget (10 s per case).",
+        "DESIGN.md section 5, C12",
+    ),
+    "C13": (
+        "token-stream monitor: an independent scanner on formatter input and output; comment list equality, removal-only alignment of code tokens, side preservation against entity-anchoring atoms; comment-placement sweep over every token gap",
+        "Comments must be identical in kind, text and order; every output token must align with an input token and input tokens may vanish only in the removal-only classes; literals compare by value; "
+        "each comment stays between the same two surviving anchoring atoms. Workload = C12's plus every token gap x 4 comment kinds on small seeds. Exploration.",
+        "Trusted: the harness scanner; anchoring is judged on atoms that are entities (names that are only part of an entity are not anchors, following the formatter's documented entity-anchor model).",
+        "DESIGN.md section 5, C13",
+    ),
+    "C14": (
+        "byte-equality monitor: fmt(fmt(x)) vs fmt(x) (and a third round), trailing newline, fmt of horizontally re-spaced variants, `zydeco fmt --check` vs `zydeco fmt` out of process",
+        "Each formatted output of the C12 workload is formatted again twice and compared byte for byte, sources re-spaced within lines must format identically, and the CLI's --check verdict must agree with whether fmt changes the file. Exploration.",
+        "Trusted: the re-spacing mutator only changes runs of blanks between tokens on one line; sources with verbatim regions are excluded from the canonical-form comparison.",
+        "DESIGN.md section 5, C14",
+    ),
     "C08": (
         "invariant monitor over zydeco_utils::graph on every digraph with <=4 nodes (exhaustive) against transitive-closure SCCs, three drain protocols; language-level permutation metamorphism",
         "Every adjacency matrix on 1..4 nodes incl. self-loops and target-only nodes is run through Kosaraju + top()/release() three ways and through obliviate/keep_only; "
